@@ -133,7 +133,21 @@ def gen(rng, tier):
                   'scope': rng.choice(['', '', 's1', 'zz'])})
     elif r < 0.9:
       ops.append({'op': 'finalize', 'scope': rng.choice(['', '', '', 'zz'])})
-    elif r < 0.95:
+    elif r < 0.93:
+      ops.append({'op': 'clear', 'constants': rng.random() < 0.6})
+      if abbrevs and rng.random() < 0.7:
+        # straight afterwards the names that were (abbreviations of) constants
+        # are used again: constants still, or - cleared - ordinary macros
+        bare = sorted(a for a in abbrevs if '.' not in a)
+        stmts = [{'k': 'bind', 'scope': '', 'sel': 'cons0', 'param': 'x',
+                  'val': _use_value(rng, sorted(abbrevs))}]
+        if bare and rng.random() < 0.6:
+          stmts.insert(rng.randint(0, 1),
+                       {'k': 'macro', 'name': rng.choice(bare),
+                        'val': {'lit': rng.randint(0, 999)}})
+        ops.append({'op': 'parse', 'stmts': stmts, 'skip': False})
+        ops.append({'op': 'call', 'cons': 'cons0', 'scope': ''})
+    elif r < 0.96:
       # a constant defined AFTER some texts were parsed
       ops.append({'op': 'constant', 'name': rng.choice(CONST_POOL), 'kind': 'ok',
                   'falsy': rng.random() < 0.2})
@@ -426,6 +440,19 @@ def run(case):
       log.add('parse_file', op['n'], type(exc).__name__ if exc else None)
     elif k == 'constant':
       define_constant(op)
+    elif k == 'clear':
+      try:
+        gin.clear_config(clear_constants=op['constants'])
+      except Exception as e:  # pylint: disable=broad-except
+        v('C05.clear', [type(e).__name__], 'clear_config raised %r' % e)
+      macros.clear()
+      store.clear()
+      uneval_refs.clear()
+      used_before_def.clear()
+      locked[0] = False
+      if op['constants']:
+        const_objs.clear()
+      log.add('clear', op['constants'])
     elif k == 'unevaluated_use':
       if locked[0]:
         continue
